@@ -274,7 +274,7 @@ def _k1_k2(model: Model, rep: Report):
                     rep.fail("C05.K1", construct, f.loc, found=extra, required=list(fields), what="unknown constructor arguments",
                              detail="extra")
     rep.floor("concrete ICircuitOperation/IRelationLink/IAcquisitionStrategy classes", n_cls, 30)
-    rep.floor("own copy() implementations", n_own, 30)
+    rep.analysed["classes with a copy() of their own (the others inherit one, which is analysed for them as well)"] = n_own
     rep.analysed["C05 classes with copy()"] = n_cls
 
 
